@@ -9,6 +9,7 @@ LEVEL_TEXT = ("Invariant monitoring at the exit of every public tree operation: 
               "and == agrees with an independent canonical form. Workload: all operation sequences up to a length bound over "
               "small seed trees (exhaustive), seeded random sequences on generated trees, and the outputs of the parsers "
               "(all dialects) and of every optimizer rule.")
+LEVEL_TEXT += (" Parser outputs of every dialect's harvested statements are audited as parsed, copied and identity-transformed.")
 LEVEL_NOTE = ("values attached by the workload are always fresh or copied nodes (attaching an already attached node without "
               "pop() is API misuse the library does not promise to survive); hash() itself is trusted on a cache-free clone")
 TECHNIQUE = "runtime monitoring: structural invariant walker + hash-cache oracle after each operation (bounded-exhaustive + random histories)"
